@@ -38,18 +38,18 @@ import (
 )
 
 type unit struct {
-	out    string   // Gallina file name without .v
-	pkgDir string   // relative to the repository
-	tags   []string // build tags
-	files  []string // base names; nil = every non-test file that matches the tags
-	only   []string // if non-nil, only these function names (and what they call)
+	out      string   // Gallina file name without .v
+	pkgDir   string   // relative to the repository
+	tags     []string // build tags
+	files    []string // base names; nil = every non-test file that matches the tags
+	only     []string // if non-nil, only these function names (and what they call)
 	onlyRecv []string // if non-nil, only methods of these receiver types (and plain functions)
-	deps   []string // units whose functions may be called (already translated)
+	deps     []string // units whose functions may be called (already translated)
 	// effect units: functions with a *bufio.Reader / io.Reader / io.Writer parameter become state transformers (Base/GoEff.v)
-	imports string            // extra modules the generated file imports
-	section string            // if non-empty: the definitions are wrapped in a Section with these Variable declarations
-	stubs   map[string]stub   // functions of the unit that are not translated but may be called: hand-written contracts
-	externs map[string]bool   // additional standard-library calls allowed in this unit
+	imports string          // extra modules the generated file imports
+	section string          // if non-empty: the definitions are wrapped in a Section with these Variable declarations
+	stubs   map[string]stub // functions of the unit that are not translated but may be called: hand-written contracts
+	externs map[string]bool // additional standard-library calls allowed in this unit
 	// receiver-state units: methods with a pointer receiver of one of these struct types take the struct's (scalar) fields
 	// as a record and return the updated record next to their result
 	stateStructs []string
@@ -65,6 +65,13 @@ type unit struct {
 	envFuncs map[string]bool
 	// calls into another package that another unit translates: package path -> that unit's module (the callee keeps its Go name)
 	depUnits map[string]string
+	// depExtra: leading (oracle) arguments of functions of a dependency unit, by Go name: Section variables of this unit
+	depExtra map[string]string
+	// nested: state struct -> struct-typed field -> sub-fields carried in the record as <field>_<sub> (c.l.context)
+	nested map[string]map[string][]string
+	// valueCopy: a method with a value receiver may assign to the fields of its (local) copy; the receiver handed back to
+	// the caller next to the result is the record as it was on entry (only for state structs without a call log)
+	valueCopy bool
 	// functions of this package that take the state receiver and are not translated: a call is logged like a call through an
 	// opaque field (field "", method = the function's name)
 	loggedFuncs map[string]bool
@@ -110,7 +117,7 @@ var units = []unit{
 		stateStructs: []string{"Logger"}, opaque: map[string][]string{"Logger": {"w", "sampler"}},
 		envVars: map[string]bool{"gLevel": true, "disableSampling": true}, externs: map[string]bool{"atomic": true}, valueFns: true},
 	{out: "ProxySrc", pkgDir: "hlog/internal/mutil", files: []string{"writer_proxy.go"},
-		only: []string{"WriteHeader", "Write", "maybeWriteHeader", "Status", "BytesWritten"},
+		only:    []string{"WriteHeader", "Write", "maybeWriteHeader", "Status", "BytesWritten"},
 		imports: "Base.GoEff Base.GoExt", section: "Variable ans : nat -> oval.",
 		stateStructs: []string{"basicWriter"}, opaque: map[string][]string{"basicWriter": {"ResponseWriter", "tee"}}},
 	{out: "EventSrc", pkgDir: ".", files: []string{"event.go"}, only: []string{"write", "Enabled"},
@@ -118,13 +125,48 @@ var units = []unit{
 		stateStructs: []string{"Event"}, opaque: map[string][]string{"Event": {"w"}},
 		depUnits:    map[string]string{"github.com/rs/zerolog/internal/json": "JsonSrc"},
 		loggedFuncs: map[string]bool{"putEvent": true}, recvNonNil: true},
+	// the field methods of Event whose arguments are in the subset: each is AppendKey + one encoder call on e.buf
+	{out: "FieldSrc", pkgDir: ".", files: []string{"event.go", "encoder_json.go"}, only: []string{"Str", "Strs", "Bytes", "Hex", "RawJSON", "Bool", "Bools", "Int", "Ints", "Int8", "Ints8", "Int16", "Ints16", "Int32", "Ints32", "Int64", "Ints64", "Uint", "Uints", "Uint8", "Uints8", "Uint16", "Uints16", "Uint32", "Uints32", "Uint64", "Uints64", "Float32", "Floats32", "Float64", "Floats64", "Time", "Times", "Dur", "Durs", "Stack", "CallerSkipFrame", "appendJSON"},
+		imports:      "Base.GoEff Base.GoExt Gen.JsonSrc",
+		section:      "Variable ans : nat -> oval.\nVariable fo : float_oracle.\nVariable fq : Z -> Z -> gofl.\nVariable env_FloatingPointPrecision : Z.\nVariable env_TimeFieldFormat : list N.\nVariable env_DurationFieldUnit : Z.\nVariable env_DurationFieldInteger : bool.",
+		stateStructs: []string{"Event"}, opaque: map[string][]string{"Event": {"w"}},
+		depUnits:    map[string]string{"github.com/rs/zerolog/internal/json": "JsonSrc"},
+		depExtra:    map[string]string{"AppendFloat32": "fo", "AppendFloats32": "fo", "AppendFloat64": "fo", "AppendFloats64": "fo", "AppendDuration": "fo fq", "AppendDurations": "fo fq"},
+		loggedFuncs: map[string]bool{"putEvent": true}, recvNonNil: true,
+		envVars: map[string]bool{"FloatingPointPrecision": true, "TimeFieldFormat": true, "DurationFieldUnit": true, "DurationFieldInteger": true}},
+	// the element methods of Array: each is AppendArrayDelim + one encoder call on a.buf; write brackets the buffer
+	{out: "ArraySrc", pkgDir: ".", files: []string{"array.go", "encoder_json.go"}, only: []string{"write", "Str", "Bytes", "Hex", "RawJSON", "Bool", "Int", "Int8", "Int16", "Int32", "Int64", "Uint", "Uint8", "Uint16", "Uint32", "Uint64", "Float32", "Float64", "Time", "Dur", "appendJSON"}, onlyRecv: []string{"Array"},
+		imports:      "Base.GoEff Base.GoExt Gen.JsonSrc",
+		section:      "Variable ans : nat -> oval.\nVariable fo : float_oracle.\nVariable fq : Z -> Z -> gofl.\nVariable env_FloatingPointPrecision : Z.\nVariable env_TimeFieldFormat : list N.\nVariable env_DurationFieldUnit : Z.\nVariable env_DurationFieldInteger : bool.",
+		stateStructs: []string{"Array"},
+		depUnits:     map[string]string{"github.com/rs/zerolog/internal/json": "JsonSrc"},
+		depExtra:     map[string]string{"AppendFloat32": "fo", "AppendFloats32": "fo", "AppendFloat64": "fo", "AppendFloats64": "fo", "AppendDuration": "fo fq", "AppendDurations": "fo fq"},
+		loggedFuncs:  map[string]bool{"putArray": true}, recvNonNil: true,
+		envVars: map[string]bool{"FloatingPointPrecision": true, "TimeFieldFormat": true, "DurationFieldUnit": true, "DurationFieldInteger": true}},
+	// the field methods of Context (value receiver; the logger's context buffer c.l.context is the state)
+	{out: "ContextSrc", pkgDir: ".", files: []string{"context.go", "encoder_json.go"}, only: []string{"Str", "Strs", "Bytes", "Hex", "RawJSON", "Bool", "Bools", "Int", "Ints", "Int8", "Ints8", "Int16", "Ints16", "Int32", "Ints32", "Int64", "Ints64", "Uint", "Uints", "Uint8", "Uints8", "Uint16", "Uints16", "Uint32", "Uints32", "Uint64", "Uints64", "Float32", "Floats32", "Float64", "Floats64", "Time", "Times", "Dur", "Durs", "appendJSON"}, onlyRecv: []string{"Context"},
+		imports:      "Base.GoEff Base.GoExt Gen.JsonSrc",
+		section:      "Variable fo : float_oracle.\nVariable fq : Z -> Z -> gofl.\nVariable env_FloatingPointPrecision : Z.\nVariable env_TimeFieldFormat : list N.\nVariable env_DurationFieldUnit : Z.\nVariable env_DurationFieldInteger : bool.",
+		stateStructs: []string{"Context"}, valueCopy: true, nested: map[string]map[string][]string{"Context": {"l": {"context"}}},
+		depUnits: map[string]string{"github.com/rs/zerolog/internal/json": "JsonSrc"},
+		depExtra: map[string]string{"AppendFloat32": "fo", "AppendFloats32": "fo", "AppendFloat64": "fo", "AppendFloats64": "fo", "AppendDuration": "fo fq", "AppendDurations": "fo fq"},
+		envVars:  map[string]bool{"FloatingPointPrecision": true, "TimeFieldFormat": true, "DurationFieldUnit": true, "DurationFieldInteger": true}},
+	// the same field methods of Event as the binary build compiles them (enc = the CBOR encoder)
+	{out: "FieldCborSrc", pkgDir: ".", tags: []string{"binary_log"}, files: []string{"event.go"}, only: []string{"Str", "Strs", "Bytes", "Hex", "Bool", "Bools", "Int", "Ints", "Int8", "Ints8", "Int16", "Ints16", "Int32", "Ints32", "Int64", "Ints64", "Uint", "Uints", "Uint8", "Uints8", "Uint16", "Uints16", "Uint32", "Uints32", "Uint64", "Uints64", "Float32", "Floats32", "Float64", "Floats64", "Dur", "Durs", "IPAddr", "MACAddr", "Stack", "CallerSkipFrame"},
+		imports:      "Base.GoEff Base.GoExt Gen.CborSrc",
+		section:      "Variable ans : nat -> oval.\nVariable fq : Z -> Z -> gofl.\nVariable env_FloatingPointPrecision : Z.\nVariable env_DurationFieldUnit : Z.\nVariable env_DurationFieldInteger : bool.",
+		stateStructs: []string{"Event"}, opaque: map[string][]string{"Event": {"w"}},
+		depUnits:    map[string]string{"github.com/rs/zerolog/internal/cbor": "CborSrc"},
+		depExtra:    map[string]string{"AppendDuration": "fq", "AppendDurations": "fq"},
+		loggedFuncs: map[string]bool{"putEvent": true}, recvNonNil: true,
+		envVars: map[string]bool{"FloatingPointPrecision": true, "DurationFieldUnit": true, "DurationFieldInteger": true}},
 	{out: "TriggerSrc", pkgDir: ".", files: []string{"writer.go"}, only: []string{"WriteLevel", "trigger", "Trigger", "Close"}, onlyRecv: []string{"TriggerLevelWriter"},
 		imports: "Base.GoEff Base.GoExt", section: "Variable env_TriggerLevelWriterBufferReuseLimit : Z.\nVariable ans : nat -> oval.",
 		stateStructs: []string{"TriggerLevelWriter"}, opaque: map[string][]string{"TriggerLevelWriter": {"Writer"}},
 		bufferFields: map[string][]string{"TriggerLevelWriter": {"buf"}}, pools: map[string]bool{"triggerWriterPool": true},
-		asserts:       map[string]map[string][]string{"TriggerLevelWriter": {"Writer": {"LevelWriter"}}},
-		envVars:       map[string]bool{"TriggerLevelWriterBufferReuseLimit": true},
-		externs:       map[string]bool{"bytes.IndexByte": true}, mutexBrackets: true},
+		asserts: map[string]map[string][]string{"TriggerLevelWriter": {"Writer": {"LevelWriter"}}},
+		envVars: map[string]bool{"TriggerLevelWriterBufferReuseLimit": true},
+		externs: map[string]bool{"bytes.IndexByte": true}, mutexBrackets: true},
 	{out: "LevelSrc", pkgDir: ".", files: []string{"log.go"}, only: []string{"String", "ParseLevel"},
 		imports: "Base.GoEff",
 		section: "Variable env_LevelTraceValue env_LevelDebugValue env_LevelInfoValue env_LevelWarnValue env_LevelErrorValue env_LevelFatalValue env_LevelPanicValue : list N.\nVariable env_LevelFieldMarshalFunc : Z -> list N.",
@@ -135,8 +177,8 @@ var units = []unit{
 	{out: "WriterSrc", pkgDir: ".", files: []string{"writer.go"}, only: []string{"Write", "WriteLevel"},
 		imports: "Base.GoEff Base.GoExt", section: "Variable ans : nat -> oval.",
 		stateStructs: []string{"multiLevelWriter", "FilteredLevelWriter", "LevelWriterAdapter"},
-		opaque: map[string][]string{"multiLevelWriter": {"writers"}, "FilteredLevelWriter": {"Writer"}, "LevelWriterAdapter": {"Writer"}},
-		externs: map[string]bool{"sentinel-errors": true}},
+		opaque:       map[string][]string{"multiLevelWriter": {"writers"}, "FilteredLevelWriter": {"Writer"}, "LevelWriterAdapter": {"Writer"}},
+		externs:      map[string]bool{"sentinel-errors": true}},
 }
 
 func main() {
@@ -180,26 +222,26 @@ type genOut struct {
 // ---------------------------------------------------------------------------------------------------------
 
 type pkgCtx struct {
-	fset    *token.FileSet
-	info    *types.Info
-	pkg     *types.Package
-	funcs   map[*types.Func]*ast.FuncDecl
-	fname   map[*types.Func]string // Gallina name of a translated (or to be translated) function
-	done    map[*types.Func]bool   // translated successfully
-	fuelFn  map[*types.Func]bool   // takes a fuel parameter
-	orcFn   map[*types.Func]bool   // takes the strconv.AppendFloat oracle
-	divFn   map[*types.Func]bool   // takes the float64(a)/float64(b) oracle
-	skipped map[*types.Func]string
-	globals map[*types.Var]string // package variables set by init(): Gallina name
-	u       unit
-	effFn   map[*types.Func]bool        // translated into the effect monad M (has a reader / writer parameter)
-	recOf   map[*types.Func]*types.Func // member of a call cycle -> the entry of that cycle (open recursion through rec_<entry>)
-	stubFn  map[*types.Func]bool
-	clkFn   map[*types.Func]bool          // takes the clock oracle
-	stFields map[string][]*types.Var      // state struct name -> the fields carried in its record
-	stBuf    map[string]map[string]bool   // state struct name -> its *bytes.Buffer fields
-	stOpaque map[string]map[string]bool   // state struct name -> its opaque (interface-typed) fields
-	valFn    map[*types.Func]bool         // `Ok (expression)`: also available as the plain value <name>_val
+	fset     *token.FileSet
+	info     *types.Info
+	pkg      *types.Package
+	funcs    map[*types.Func]*ast.FuncDecl
+	fname    map[*types.Func]string // Gallina name of a translated (or to be translated) function
+	done     map[*types.Func]bool   // translated successfully
+	fuelFn   map[*types.Func]bool   // takes a fuel parameter
+	orcFn    map[*types.Func]bool   // takes the strconv.AppendFloat oracle
+	divFn    map[*types.Func]bool   // takes the float64(a)/float64(b) oracle
+	skipped  map[*types.Func]string
+	globals  map[*types.Var]string // package variables set by init(): Gallina name
+	u        unit
+	effFn    map[*types.Func]bool        // translated into the effect monad M (has a reader / writer parameter)
+	recOf    map[*types.Func]*types.Func // member of a call cycle -> the entry of that cycle (open recursion through rec_<entry>)
+	stubFn   map[*types.Func]bool
+	clkFn    map[*types.Func]bool       // takes the clock oracle
+	stFields map[string][]*types.Var    // state struct name -> the fields carried in its record
+	stBuf    map[string]map[string]bool // state struct name -> its *bytes.Buffer fields
+	stOpaque map[string]map[string]bool // state struct name -> its opaque (interface-typed) fields
+	valFn    map[*types.Func]bool       // `Ok (expression)`: also available as the plain value <name>_val
 }
 
 type unsupported struct{ msg string }
@@ -393,6 +435,25 @@ func translateUnit(repo string, u unit) (g genOut, err error) {
 				}
 				p.stOpaque[sn][fv.Name()] = true
 				rf = append(rf, rfield{fv.Name(), "bool"}) // non-nil
+			} else if subs := u.nested[sn][fv.Name()]; len(subs) > 0 {
+				ist, isSt := fv.Type().Underlying().(*types.Struct)
+				if !isSt {
+					return g, fmt.Errorf("nested field %s.%s is not a struct", sn, fv.Name())
+				}
+				for _, sub := range subs {
+					found := false
+					for j := 0; j < ist.NumFields(); j++ {
+						if sv := ist.Field(j); sv.Name() == sub && typeInSubset(sv.Type()) {
+							nv := types.NewField(sv.Pos(), sv.Pkg(), fv.Name()+"_"+sub, sv.Type(), false)
+							flds = append(flds, nv)
+							rf = append(rf, rfield{nv.Name(), coqType(sv.Type())})
+							found = true
+						}
+					}
+					if !found {
+						return g, fmt.Errorf("nested field %s.%s.%s not found or outside the subset", sn, fv.Name(), sub)
+					}
+				}
 			} else if typeInSubset(fv.Type()) {
 				flds = append(flds, fv)
 				rf = append(rf, rfield{fv.Name(), coqType(fv.Type())})
@@ -405,7 +466,7 @@ func translateUnit(repo string, u unit) (g genOut, err error) {
 				rf = append(rf, rfield{fld + "_is_" + in, "bool"}) // the dynamic type behind the field implements that interface
 			}
 		}
-		if len(p.stOpaque[sn]) > 0 || len(p.stBuf[sn]) > 0 {
+		if len(p.stOpaque[sn]) > 0 || len(p.stBuf[sn]) > 0 || (len(u.loggedFuncs) > 0 && len(u.stateStructs) == 1) {
 			rf = append(rf, rfield{"calls", "list ocall"})
 		}
 		p.stFields[sn] = flds
@@ -894,36 +955,37 @@ func zeroOf(t types.Type) string {
 // per-function translation
 
 type fnCtx struct {
-	p        *pkgCtx
-	names    map[types.Object]string
-	taken    map[string]bool
-	resType  string
-	loops    []string
-	fname    string
-	nloop    int
-	nk       int
-	ntmp     int
-	needFuel bool
-	needOrc  bool
-	needDiv  bool
-	pre      []func(string) string // pending wrappers (guards, binds) of the statement being translated
-	cond     []string              // enclosing short-circuit conditions (guards become implications)
-	locals   map[types.Object]bool // objects treated as local variables (params, locals, init's globals)
-	eff      bool                  // translated into the effect monad M (Base/GoEff.v)
-	recFn    *types.Func           // the entry of the call cycle this function belongs to (nil: none)
-	recName  string                // name of the parameter that stands for that entry
-	recType  string
-	handles  map[types.Object]bool // reader / writer variables (erased)
-	sig      *types.Signature
-	self     types.Object // the pointer receiver of a state struct method (nil: none)
-	selfT    string       // its struct name
-	needClk  bool
-	clkUsed  bool
-	selfByValue bool                  // value receiver: field stores would be invisible to the caller
-	opaqueAlias map[types.Object]string // local variables that hold the value of an opaque field after a type assertion: the field's name
-	opaqueVars  map[types.Object]string // local variables that hold an element of an opaque slice field: the field's name
-	namedRes    []*types.Var
-	elemOverride string               // Gallina type of the elements of the range being translated (opaque slices)
+	p            *pkgCtx
+	names        map[types.Object]string
+	taken        map[string]bool
+	resType      string
+	loops        []string
+	fname        string
+	nloop        int
+	nk           int
+	ntmp         int
+	needFuel     bool
+	needOrc      bool
+	needDiv      bool
+	pre          []func(string) string // pending wrappers (guards, binds) of the statement being translated
+	cond         []string              // enclosing short-circuit conditions (guards become implications)
+	locals       map[types.Object]bool // objects treated as local variables (params, locals, init's globals)
+	eff          bool                  // translated into the effect monad M (Base/GoEff.v)
+	recFn        *types.Func           // the entry of the call cycle this function belongs to (nil: none)
+	recName      string                // name of the parameter that stands for that entry
+	recType      string
+	handles      map[types.Object]bool // reader / writer variables (erased)
+	sig          *types.Signature
+	self         types.Object // the pointer receiver of a state struct method (nil: none)
+	selfT        string       // its struct name
+	needClk      bool
+	clkUsed      bool
+	selfEntry    string                  // valueCopy: the name the receiver record is kept under as it was on entry
+	selfByValue  bool                    // value receiver: field stores would be invisible to the caller
+	opaqueAlias  map[types.Object]string // local variables that hold the value of an opaque field after a type assertion: the field's name
+	opaqueVars   map[types.Object]string // local variables that hold an element of an opaque slice field: the field's name
+	namedRes     []*types.Var
+	elemOverride string // Gallina type of the elements of the range being translated (opaque slices)
 }
 
 // the value returned by a state struct method: the result next to the receiver record
@@ -1138,6 +1200,13 @@ func (p *pkgCtx) translateFunc(obj *types.Func) (txt string, nloops int, err err
 	if f.self != nil {
 		ex.ret = func(v string) string { return "Ok (" + v + ", " + f.nameOf(f.self) + ")" }
 	}
+	if f.self != nil && f.selfByValue && p.u.valueCopy && sig.Results().Len() > 0 {
+		if len(p.stOpaque[f.selfT]) > 0 || len(p.stBuf[f.selfT]) > 0 || len(p.u.loggedFuncs) > 0 {
+			fail("value receiver copy with a call log")
+		}
+		f.selfEntry = f.nameOf(f.self) + "_entry"
+		ex.ret = func(v string) string { return "Ok (" + v + ", " + f.selfEntry + ")" }
+	}
 	if sig.Results().Len() == 0 {
 		if f.self != nil {
 			ex.next = func() string { return "Ok (tt, " + f.nameOf(f.self) + ")" }
@@ -1152,6 +1221,9 @@ func (p *pkgCtx) translateFunc(obj *types.Func) (txt string, nloops int, err err
 		namedInit = append(namedInit, fmt.Sprintf("let %s : %s := %s in", f.nameOf(v), coqType(v.Type()), zeroOf(v.Type())))
 	}
 	body := f.block(stmts, ex)
+	if f.selfEntry != "" {
+		body = fmt.Sprintf("let %s := %s in\n", f.selfEntry, f.nameOf(f.self)) + body
+	}
 	if len(namedInit) > 0 {
 		body = strings.Join(namedInit, "\n") + "\n" + body
 	}
@@ -1638,6 +1710,19 @@ func (f *fnCtx) selfField(e ast.Expr) string {
 	if !ok || f.self == nil {
 		return ""
 	}
+	if in, isSel := sel.X.(*ast.SelectorExpr); isSel {
+		// c.l.context: a carried sub-field of a struct-typed field of the receiver
+		if id, isId := in.X.(*ast.Ident); isId && f.p.info.ObjectOf(id) == f.self && len(f.p.u.nested[f.selfT][in.Sel.Name]) > 0 {
+			name := in.Sel.Name + "_" + sel.Sel.Name
+			for _, fv := range f.p.stFields[f.selfT] {
+				if fv.Name() == name {
+					return name
+				}
+			}
+			fail("field %s.%s of %s is not carried in the state record", in.Sel.Name, sel.Sel.Name, f.selfT)
+		}
+		return ""
+	}
 	id, ok := sel.X.(*ast.Ident)
 	if !ok || f.p.info.ObjectOf(id) != f.self {
 		return ""
@@ -1963,7 +2048,7 @@ func (f *fnCtx) store(lhs ast.Expr, val string, rest []ast.Stmt, ex exits) strin
 		return f.then(fmt.Sprintf("let %s := %s in", f.nameOf(o), val), "", func() string { return f.block(rest, ex) })
 	case *ast.SelectorExpr:
 		if fld := f.selfField(l); fld != "" {
-			if f.selfByValue {
+			if f.selfByValue && f.selfEntry == "" {
 				fail("assignment to a field of a value receiver")
 			}
 			sn := f.nameOf(f.self)
@@ -3425,6 +3510,9 @@ func (f *fnCtx) call(e *ast.CallExpr) string {
 			for _, a := range e.Args {
 				as = append(as, paren(f.expr(a)))
 			}
+			if x := f.p.u.depExtra[fn.Name()]; x != "" {
+				as = append([]string{x}, as...)
+			}
 			code := mod + "." + coqIdent(fn.Name()) + " " + strings.Join(as, " ")
 			t := f.tmp("r")
 			bnd := f.m("bind")
@@ -3658,7 +3746,9 @@ func (f *fnCtx) extern(fn *types.Func, e *ast.CallExpr) string {
 			return "tt"
 		case "AddUint32", "AddInt64":
 			nv := f.arith(token.ADD, get, arg(1), ft)
-			f.pre = append(f.pre, func(k string) string { return fmt.Sprintf("let %s := %s in\nlet %s := %s %s in\n%s", t, nv, sn, set, t, k) })
+			f.pre = append(f.pre, func(k string) string {
+				return fmt.Sprintf("let %s := %s in\nlet %s := %s %s in\n%s", t, nv, sn, set, t, k)
+			})
 			return t
 		default: // CompareAndSwap
 			old, nw := arg(1), arg(2)
